@@ -873,8 +873,9 @@ func ConcPaths(fn *ssa.Function, cfg ConcCfg) (seqs []string, truncated bool) {
 					} else {
 						st.mem[a] = x.Val
 					}
-				} else if al, isAl := x.Addr.(*ssa.Alloc); isAl && (len(st.fmem) > 0 || len(st.fvals) > 0) {
-					// the whole variable is overwritten: what was known about its fields is gone
+				} else if al, isAl := x.Addr.(*ssa.Alloc); isAl && isStructVal(x.Val) {
+					// the whole variable is overwritten: what was known about its fields is gone; what it now holds is
+					// a copy of the struct value stored (remembered under the pseudo-field "*")
 					pre := strings.TrimSuffix(addrKey(st, al), ".") + "."
 					st = st.clone()
 					for k := range st.fmem {
@@ -887,6 +888,14 @@ func ConcPaths(fn *ssa.Function, cfg ConcCfg) (seqs []string, truncated bool) {
 							delete(st.fvals, k)
 						}
 					}
+					if st.fvals == nil {
+						st.fvals = map[string]ssa.Value{}
+					}
+					v := x.Val
+					if nx := st.alias[v]; nx != nil {
+						v = nx
+					}
+					st.fvals[pre+"*"] = v
 				} else if _, isFA := x.Addr.(*ssa.FieldAddr); isFA {
 					ad := addrKey(st, x.Addr)
 					st = st.clone()
@@ -1722,6 +1731,29 @@ func (st *ConcState) fieldKey(obj ssa.Value, field string) string {
 		break
 	}
 	return strings.TrimSuffix(addrKey(st, v), ".") + "." + field
+}
+
+func isStructVal(v ssa.Value) bool {
+	_, ok := types.Unalias(v.Type()).Underlying().(*types.Struct)
+	return ok
+}
+
+// FieldsOf lists what is known about the fields of the struct obj denotes, nested fields included (key: the dotted
+// field path below obj; value: the rendering of what the field holds on this path).
+func (st *ConcState) FieldsOf(obj ssa.Value) map[string]string {
+	out := map[string]string{}
+	prefix := strings.TrimSuffix(st.fieldKey(obj, ""), ".") + "."
+	for k, n := range st.fmem {
+		if strings.HasPrefix(k, prefix) {
+			out[k[len(prefix):]] = strconv.FormatInt(n, 10)
+		}
+	}
+	for k, v := range st.fvals {
+		if strings.HasPrefix(k, prefix) {
+			out[k[len(prefix):]] = st.Desc(v)
+		}
+	}
+	return out
 }
 
 // FieldOf reports what field `field` of the struct that obj denotes (an allocation, or a load of one) holds on this
